@@ -443,6 +443,17 @@ impl<'a> Gen<'a> {
             }
             return Blk::Code(String::new(), body, ' ', 4);
         }
+        // fenced bodies may begin / end with blank lines (trimmed by the writer; must be trimmed completely in one pass)
+        if self.rng.chance(1, 8) {
+            for _ in 0..self.rng.range(1, 3) {
+                body.insert(0, String::new());
+            }
+        }
+        if self.rng.chance(1, 8) {
+            for _ in 0..self.rng.range(1, 2) {
+                body.push(String::new());
+            }
+        }
         let fence = if self.rng.chance(1, 3) { '~' } else { '`' };
         let len = self.rng.range(3, 5);
         let info = if self.rng.chance(1, 2) {
